@@ -169,6 +169,8 @@ CONFIGS = [
     ('date',      b'match date > 1 second or date header "Date" < 100 years move "%(dst)s"'),
     ('block',     b'match all attachment {\n\t\tmatch header "Content-Type" /text/ exec stdin body "true"\n\t}'),
     ('dry',       b'match header "Subject" /n(e+)dle|caf|\xc3\xa9/ or body /(plain) text|\xc3\xa9/ move "%(dst)s"'),
+    # case-converted captures interpolated into headers (run in a UTF-8 locale: letters whose other-case form has another length)
+    ('case',      b'match header { "Subject" "To" } /(.+)/l label "\\1"\n\tmatch body /(.+)/u add-header "X-Up" "\\1" label "\\0"'),
 ]
 
 
@@ -179,8 +181,17 @@ ODD_VALUES = [b'=?UTF-8?B??=', b'=?UTF-8?Q??= =?UTF-8?B??= x', b'x =?UTF-8?b??= 
               b'=?x?q?_=5F=3F=?= =?', b'=?x?B?QUJD?==?x?B?QUJD?=', b'', b'\n \n\t\n x', b'\t', b'=?x?B?QUJD', b'=?x?B?' + b'\xff' * 9 + b'?=', b'a' * 9000]
 
 
+# letters whose lower- or upper-case form has a different UTF-8 length (U+023A, U+023E, U+0250, U+0251, U+0131, U+017F, U+212A, U+1E9E),
+# at lengths around allocation size classes
+CASE_LETTERS = '\u023a\u023e\u0250\u0251\u0131\u017f\u212a\u1e9e\u00df'
+
+
 def odd_messages():
     out = []
+    for n in (1, 3, 7, 8, 12, 15, 16, 24, 31):
+        v = ''.join(CASE_LETTERS[(i + n) % len(CASE_LETTERS)] for i in range(n)).encode()
+        out.append(b'Subject: %s\nX-Id: case%d\n\n%s\n' % (v, n, v[::1]))
+        out.append(b'To: x%s\nSubject: =?UTF-8?Q?%s?=\n\nabc %s needle\n' % (v, b''.join(b'=%02X' % c for c in v), v))
     for i, v in enumerate(ODD_VALUES):
         name = [b'Subject', b'To', b'X-Label', b'From', b'X-Zed', b'Date', b'Content-Type'][i % 7]
         out.append(b'%s: %s\nX-Id: odd%d\nSubject: needle\n\nbody needle abcd\n' % (name, v, i))
@@ -205,6 +216,8 @@ def run_binary(ck, rng, rounds, stats):
         env = dict(SAN_ENV)
         if name == 'dry':
             env['LC_ALL'] = rng.choice(['C', 'C.UTF-8'])
+        if name == 'case':
+            env['LC_ALL'] = 'C.UTF-8' if round_ < len(CONFIGS) else rng.choice(['C', 'C.UTF-8'])
         if stdin_mode:
             conf = sb.write_conf(b'stdin {\n\t%s\n}\n' % (rule % {b'dst': dst.encode()}))
             bad = None
